@@ -958,6 +958,7 @@ func (g *groupQuery) Select(t iterator) NodeNavigator {
 }
 
 func (g *groupQuery) Evaluate(t iterator) interface{} {
+	g.posit = 0
 	return g.Input.Evaluate(t)
 }
 
